@@ -32,7 +32,12 @@ def run(tier):
                       "(hook H6), character map and the per-glyph comparison (unhinted outline, advance, side bearing at several "
                       "sizes and locations). The same judgement is applied to random requests on every glyf font of the "
                       "repository corpus (font-test-data and klippa/test-data), to re-subsetting each 4th subset with the same "
-                      "request, and to subsetting every font to everything it contains.")
+                      "request, and to subsetting every font to everything it contains, and to a synthetic variable font with 139 KB of "
+                      "odd-length gvar data concentrated in its last glyphs (offset format chosen from the kept data, padding under "
+                      "short offsets). Serializer.tla models klippa's object serializer (push / embed / add_link / pop_pack with sharing / "
+                      "end_serialize; objects packed tail-first, links resolved from head, tail or start minus a bias) as a state machine; "
+                      "TLC checks the packing discipline and exports every finished call sequence with the expected layout, which is "
+                      "replayed on klippa::serialize::Serializer (bytes, shared indices and error must agree).")
     ck.assumptions = ["hook H6 exposes the plan's (new, old) glyph list; the output font is nevertheless judged only through what "
                       "can be observed by reopening it", "a glyph composed of .notdef is exempt from the outline comparison when the "
                       ".notdef outline is not kept", "subsets with more than 48 glyphs or 64 mapped characters exceed the event "
@@ -55,6 +60,21 @@ def run(tier):
         res = vlib.run_harness("fv-subset", ["c17", "corpus", "--seed", vlib.seed() + i, "--n", 24 if tier == "quick" else 120, "--out", t2], timeout=3000)
         ck.add_harness("record:corpus:%d" % i, res, traces=False)
         validate(ck, wd, "corpus:%d" % i, t2)
+    # a synthetic variable font whose kept glyphs carry more / less gvar data than short offsets reach, odd-length data
+    t3 = os.path.join(wd, "biggvar.ndjson")
+    res = vlib.run_harness("fv-subset", ["c17", "biggvar", "--out", t3], timeout=3000)
+    ck.add_harness("record:biggvar", res, traces=False)
+    validate(ck, wd, "biggvar", t3)
+    # the object serializer every rebuilt table goes through: Serializer.tla's call sequences replayed on klippa::serialize
+    r = vlib.run_tlc(wd, "Serializer", cfg="Serializer_%s.cfg" % tier, workers=8 if tier == "quick" else 14, timeout=3400, xmx="12g", out_name="serializer.out")
+    ck.add_tlc("tlc:Serializer", r)
+    if not r.ok:
+        ck.spec_error("Serializer", r)
+    t4 = os.path.join(wd, "serializer.ndjson")
+    res = vlib.run_harness("fv-subset", ["ser", "--cases", r.out, "--trace-every", 1 if tier == "quick" else 25, "--out", t4], timeout=3000)
+    ck.add_harness("replay:serializer", res, traces=False)
+    os.remove(r.out)
+    validate(ck, wd, "serializer", t4)
     return ck.finish()
 
 
